@@ -52,7 +52,7 @@ def seq_case(rng, maxlen):
         sessions[-1].append(("v",))
     # how each instance finally goes: dropped, dropped while its thread unwinds, or (the original only) verify()
     return {"kind": "seq", "sessions": sessions,
-            "unwind": [rng.choice(["drop", "drop", "unwind", "verify"] if j == 0 else ["drop", "drop", "unwind"]) for j in range(len(sessions))]}
+            "unwind": [rng.choice(["drop", "drop", "unwind", "verify", "report"] if j == 0 else ["drop", "drop", "unwind"]) for j in range(len(sessions))]}
 
 
 def thread_case(rng, nth, per, sched=None):
@@ -76,6 +76,8 @@ def harness_line(c, cid):
                 kind = kind.upper()
             elif how == "verify" and k == 0:
                 kind = "v"
+            elif how == "report" and k == 0:
+                kind = "R"
             parts.append(kind + f" {len(ops)} " + " ".join(":".join(str(x) for x in o) for o in ops))
         return " ".join(parts)
     return " ".join([f"case {cid} TH {len(c['vals'])}"] + [f"{len(v)} " + " ".join(map(str, v)) for v in c["vals"]]
@@ -217,6 +219,16 @@ def run(tier, seed):
     impl = C.run_harness(binary, [harness_line(c, i) for i, c in enumerate(cases)], timeout=900)
     model = C.coq_eval_cases(PRELUDE, [coq_case(c) for c in cases], show="lines_of_chcases", shard=40)
     bad = [i for i in range(len(cases)) if project(impl[i]) != project(model[i])]
+    # the sessions whose original ends by report(): also on a build WITHOUT the mock-std feature, where `impl Termination for Unimock`
+    # is a different function (no TerminationMock in front of the teardown)
+    rep = [i for i, c in enumerate(cases) if c["kind"] == "seq" and (c.get("unwind") or [None])[0] == "report"]
+    if rep and not bad:
+        plain = C.build_harness("chain", ["plain-build"])
+        impl2 = C.run_harness(plain, [harness_line(cases[i], k) for k, i in enumerate(rep)], timeout=900)
+        for k, i in enumerate(rep):
+            if project(impl2[k]) != project(model[i]):
+                bad.append(i)
+                impl[i] = impl2[k] + ["(build: std without mock-std)"]
     # thousands of values on a 256 KiB stack: lending, make_mut and the final release must all be iterative
     nbig = 5000 if tier == "quick" else 50000
     big = C.run_harness(binary, [f"case big BIG {nbig} 64"], timeout=900, jobs=1)[0]
